@@ -116,7 +116,7 @@ func randomCfg(g *rand.Rand, seed int64, family string) SchedCfg {
 		if b.MaxSize > 300 {
 			b.MaxSize = 200
 		}
-	case "rereads":
+	case "rereads", "jointcampaign":
 		b.Lease = false
 		if len(s.Voters) < 5 {
 			s.Voters = []uint64{1, 2, 3, 4, 5}
@@ -372,6 +372,13 @@ func (x *gen) next(phase string) string {
 				n := 2 + g.Intn(3)
 				return fmt.Sprintf("proposebatch %d %d %d %s", lead(), n, g.Intn(n), x.confChangeSpec())
 			}},
+			// two configuration changes in one proposal: the second must be neutralised
+			wop{2, func() string {
+				n := 2 + g.Intn(3)
+				a := g.Intn(n)
+				b := (a + 1 + g.Intn(n-1)) % n
+				return fmt.Sprintf("proposebatch %d %d %d %s %d %s", lead(), n, a, x.confChangeSpec(), b, x.confChangeSpec())
+			}},
 			wop{3, func() string {
 				for id := uint64(1); id <= 6; id++ {
 					if x.c.nodes[id] == nil {
@@ -419,7 +426,7 @@ func (x *gen) next(phase string) string {
 	return "tickall"
 }
 
-var phases = []string{"healthy", "chaos", "partition", "crashy", "confchange", "snapshots", "transfer", "reads", "limits", "stall", "dsnap", "fig8snap", "dupvote", "snaplead", "rereads", "snapapply", "aba", "xferjoint", "soloread", "readhb", "selfack", "oddcalls", "snapinactive", "snapterm", "xferremoved", "cqreports"}
+var phases = []string{"healthy", "chaos", "partition", "crashy", "confchange", "snapshots", "transfer", "reads", "limits", "stall", "dsnap", "fig8snap", "dupvote", "snaplead", "rereads", "snapapply", "aba", "xferjoint", "soloread", "readhb", "selfack", "oddcalls", "snapinactive", "snapterm", "xferremoved", "cqreports", "jointcampaign"}
 
 func (x *gen) isLeader(n *Node) bool {
 	if !n.alive || n.rn == nil {
@@ -748,6 +755,8 @@ func runRandom(s SchedCfg, nops int, tr *traceWriter) *Cluster {
 			x.directedXferRemoved()
 		case "cqreports":
 			x.directedCQReports()
+		case "jointcampaign":
+			x.directedJointCampaign()
 		default:
 			for i, l := 0, 15+x.g.Intn(50); i < l && c.ops < nops; i++ {
 				c.exec(x.next(phase))
